@@ -1,7 +1,10 @@
 //! Logic related to the Carrier, the component in charge or sending/requesting transaction data from/to `bitcoind`.
 
 use std::collections::HashMap;
+#[cfg(not(feature = "verif"))]
 use std::sync::{Arc, Condvar, Mutex};
+#[cfg(feature = "verif")]
+use crate::verif::sync::{Arc, Condvar, Mutex};
 
 use crate::responder::ConfirmationStatus;
 use crate::{errors, rpc_errors};
